@@ -363,7 +363,16 @@ func (vm *VirtualMachine) eval(ctx context.Context) error {
 		case op.LoadFast:
 			vm.push(vm.activeFrame.Locals()[vm.fetch()])
 		case op.LoadGlobal:
-			vm.push(vm.activeCode.Globals[vm.fetch()])
+			idx := vm.fetch()
+			obj := vm.activeCode.Globals[idx]
+			if obj == nil {
+				// The compiler knows the name but the statement that assigns
+				// it did not run: it failed or was skipped in an earlier input
+				// of a session, or the name is used before its definition
+				return errz.EvalErrorf("eval error: global variable %q has no value",
+					vm.activeCode.Global(int(idx)).Name())
+			}
+			vm.push(obj)
 		case op.LoadFree:
 			idx := vm.fetch()
 			freeVars := vm.activeFrame.fn.FreeVars()
